@@ -375,7 +375,9 @@ class LLExec:
                 if mm.group(2) == prev:
                     self.regs[dest] = self.val(ty, mm.group(1))
                     return None
-            raise HarnessError(f"phi has no entry for predecessor {prev}")
+            from .kse import Violation
+
+            raise Violation("ill-formed", ("LLVM phi has no entry for its predecessor block (the verifier rejects the module)", prev))
         if op == "br":
             if rest.startswith("label"):
                 return ("br", rest.split("%")[1].strip().strip('"'))
